@@ -221,6 +221,9 @@ type GenProfile struct {
 	// TxTimeouts: an unanswered Session Report Request is later followed by a "txto" step in which its
 	// retransmission timer runs out (all retries, then abandoned)
 	TxTimeouts bool
+	// LateAnswers: an unanswered Session Report Request is answered later ("lateans" step, mostly with SEID 0) -
+	// after other requests, after the deletion of the session it was about, or twice for two reports
+	LateAnswers bool
 }
 
 type genSess struct {
@@ -384,7 +387,26 @@ func Generate(r *Rng, p GenProfile) *History {
 		}
 	}
 	pendingTx := false
+	var pendingRefs []int // indices of report steps whose request is still unanswered
 	for len(g.h.Ops) < nops {
+		if p.LateAnswers && len(pendingRefs) > 0 && r.Chance(1, 4) {
+			k := r.Intn(len(pendingRefs))
+			ref := pendingRefs[k]
+			pendingRefs = append(pendingRefs[:k], pendingRefs[k+1:]...)
+			ans := "seid0"
+			if r.Chance(1, 4) {
+				ans = "accept"
+			}
+			add(Op{K: "lateans", Node: g.h.Ops[ref].Node, NodeID: -1, Sess: g.h.Ops[ref].Sess, Ref: ref, Answer: ans})
+			if ans == "seid0" {
+				for _, s := range g.sess {
+					if s.h == g.h.Ops[ref].Sess {
+						s.alive = false // if it still was
+					}
+				}
+			}
+			continue
+		}
 		if pendingTx && r.Chance(1, 3) {
 			add(Op{K: "txto", Node: 0, NodeID: -1, Sess: -1})
 			pendingTx = false
@@ -558,8 +580,32 @@ func Generate(r *Rng, p GenProfile) *History {
 					o.Answer = "ignore"
 					pendingTx = true
 				}
+			case 3, 4:
+				if p.LateAnswers && !s.taken {
+					o.Answer = "ignore"
+				}
 			}
 			add(o)
+			if p.LateAnswers && o.Answer == "ignore" && !s.taken {
+				ref := len(g.h.Ops) - 1
+				switch r.Intn(6) {
+				case 0, 1:
+					// the answer crosses the deletion of the session the report was about
+					add(Op{K: "del", Node: s.node, NodeID: -1, Sess: s.h})
+					s.alive = false
+					add(Op{K: "lateans", Node: s.node, NodeID: -1, Sess: s.h, Ref: ref, Answer: "seid0"})
+				case 2:
+					// two reports in flight, both answered with SEID 0
+					o2 := o
+					o2.URRs = append([]uint32{}, o.URRs...)
+					add(o2)
+					add(Op{K: "lateans", Node: s.node, NodeID: -1, Sess: s.h, Ref: ref, Answer: "seid0"})
+					add(Op{K: "lateans", Node: s.node, NodeID: -1, Sess: s.h, Ref: ref + 1, Answer: "seid0"})
+					s.alive = false
+				default:
+					pendingRefs = append(pendingRefs, ref)
+				}
+			}
 		case 8:
 			s := live[r.Intn(len(live))]
 			add(Op{K: "dldr", Node: s.node, NodeID: -1, Sess: s.h, PDR: uint16(r.Range(1, 3)), Act: []uint16{4, 0xc, 0xc, 8}[r.Intn(4)], PayLen: r.Range(1, 60), Answer: "accept"})
